@@ -432,6 +432,8 @@ class RollWorld:
             for (o, e, _, _) in mf.recs:
                 if o < off < e:
                     self.probe('position_inside_record')
+                    if off - o > 4096:
+                        self.probe('position_far_inside_record')
                     return (mf.idx, o)
         return (mf.idx, off)
 
@@ -1132,6 +1134,8 @@ def gen_history_c13(ch, knobs):
     weights = [w_write, 8, 3, 2 if knobs['seeks'] else 0, 2 if knobs['seeks'] else 0, 2,
                1 if knobs['reopen'] else 0, 1 if knobs['ext_delete'] else 0, 2 if knobs['clock_ops'] else 0]
     kinds = ['write', 'read', 'read_block', 'seek', 'tell', 'refresh', 'reopen', 'ext_delete', 'clock']
+    if knobs.get('huge'):          # the reader mostly asks where the end is and comes back to it later
+        weights[3], weights[4] = 8, 8
     for _ in range(knobs['n_ops']):
         kind = kinds[ch.weighted('ops', weights)]
         if kind == 'write':
@@ -1139,6 +1143,8 @@ def gen_history_c13(ch, knobs):
             sk = ch.weighted('ops', [6, 2, 1])
             size = ch.rng_int('ops', 3, max(3, hi // 2)) if sk == 0 else ch.rng_int('ops', 0, 3) if sk == 1 \
                 else ch.rng_int('ops', hi // 2, hi)
+            if knobs.get('huge') and ch.chance('ops', 1, 4):
+                size = ch.rng_int('ops', 4100, 9500)
             op = {'op': 'write', 'id': rid, 'size': size}
             if ch.chance('ops', 1, 8):
                 op['odd'] = ch.rng_int('ops', 1, len(ODD))
@@ -1158,7 +1164,7 @@ def gen_history_c13(ch, knobs):
             op = {'op': kind, 'r': names[ch.weighted('ops', [2] + [3] * len(rdonly))]}
         elif kind == 'seek':
             r = names[ch.weighted('ops', [2] + [3] * len(rdonly))]
-            tk = ch.weighted('ops', [3, 4, 1, 1])
+            tk = ch.weighted('ops', [3, 4, 1, 1] if not knobs.get('huge') else [1, 4, 5, 0])
             to = 'start' if tk == 0 else ch.rng_int('ops', 0, 7) if tk == 1 else 'end' if tk == 2 else 'block0'
             op = {'op': 'seek', 'r': r, 'to': to}
         elif kind == 'refresh':
@@ -1240,6 +1246,9 @@ def run_case_c13(seed, replay=None, tier='quick'):
         if tier == 'thorough' and ch.chance('gen', 1, 3):
             knobs['fsgran'] = True
             knobs['short_write'] = ch.chance('gen', 1, 3)
+            # records longer than the 4096-byte look-back window of RollLog.seek(), partially on disk when a reader
+            # asks for its position (round-5 seeded change C14-r5-2)
+            knobs['huge'] = knobs['short_write'] and knobs['mode'] != 'bin' and ch.chance('gen', 1, 2)
         history = gen_history_c13(ch, knobs)
     if knobs.get('fsgran'):
         return run_fsgran(seed, ch, knobs, history)
